@@ -19,12 +19,20 @@
 //!                   "diverse": {"script": [d, ..], "default": d}   d = -1: the inner diversify_many; d >= 0: d copies of the first parent
 //!                   "population": {"kind": "greedy"|"elitism", "selection_size": n, "script": [c, ..], "default": c}
 //!                              c = -1: inner select(); 0: no parent; n > 0: the first n of inner select()
-//!                   "user_termination": L|null, "init_size": n (default 4), "max_calls": watchdog (default 4 * (limit + 2) + 8)}}
+//!                              "phase": {"script": [f, ..], "default": f}  f = 0: the inner selection_phase(); 1: Exploration; 2: Initial
+//!                   "user_termination": L|null, "init_size": n (default 4), "max_calls": watchdog (default 4 * (limit + 2) + 8),
+//!                   "init_ops": n|null (number of initial operators: scalar = one per point, vrp = the first n default ones),
+//!                   "weights": [w, ..] (default 1 each), "track_population": T (default 1), "max_time": secs|null,
+//!                   "delay_ms": sleep between building the configuration and running it (default 0),
+//!                   "iter_sleep_ms": sleep inside every search_many call (default 0)}
+//!        "scalar": {"init": [[x, ..], ..], "individuals": [[x, ..], ..] (with_init_solutions)}
 //! res:  {"outcome": "solution"|"error", "error": msg, "solution": <document> (vrp) | "best": [[data], fitness] (scalar),
 //!        "search_calls": n, "diversify_calls": n,
 //!        "gens": [{"stat": statistics().generation seen by search_many, "parents": p, "inner": r, "returned": x, "diverse": d}],
 //!        "term": [[statistics().generation, answer], ..], "adds": [sizes of add / add_all], "pop_on_generation": [statistics.generation],
-//!        "selects": [parents handed out], "events": "compact event string", "generations": metrics.generations,
+//!        "selects": [parents handed out], "creates": [operator index per create], "n_ops": initial operators installed, "fits": [first fitness value of every individual
+//!        handed to the population, in order], "events": "compact event string" (t/T is_termination, e estimate, c create, a add,
+//!        p select, d diversify_many, s search_many, A add_all, g population.on_generation), "generations": metrics.generations,
 //!        "evolution": [TelemetryGeneration.number, ..], "polls": n, "poll_sites": [..], "watchdog": bool}
 use serde_json::{json, Value};
 use std::cmp::Ordering as CmpOrdering;
@@ -35,14 +43,18 @@ use std::sync::{Arc, Mutex};
 use vrp_core::construction::heuristics::InsertionContext;
 use vrp_core::models::GoalContext;
 use vrp_core::prelude::*;
-use vrp_core::rosomaxa::evolution::{EvolutionConfig, EvolutionConfigBuilder, EvolutionSimulator, TelemetryMetrics, TelemetryMode};
+use vrp_core::rosomaxa::evolution::{
+    EvolutionConfig, EvolutionConfigBuilder, EvolutionSimulator, InitialOperator, InitialOperators, TelemetryMetrics, TelemetryMode,
+};
 use vrp_core::rosomaxa::example::{VectorContext, VectorInitialOperator, VectorObjective, VectorSolution};
 use vrp_core::rosomaxa::hyper::{DynamicSelective, HeuristicDiversifyOperator, HeuristicSearchOperator, HyperHeuristic, StaticSelective};
 use vrp_core::rosomaxa::population::{Elitism, Greedy, HeuristicPopulation, SelectionPhase};
 use vrp_core::rosomaxa::prelude::{HeuristicContext, HeuristicObjective, HeuristicSolution, HeuristicStatistics};
 use vrp_core::rosomaxa::termination::Termination;
 use vrp_core::rosomaxa::utils::{DefaultRandom, Parallelism, Quota, Random};
-use vrp_core::solver::{get_default_heuristic, get_static_heuristic, RefinementContext, Solver, VrpConfigBuilder};
+use vrp_core::solver::{
+    create_default_init_operators, get_default_heuristic, get_static_heuristic, RefinementContext, Solver, VrpConfigBuilder,
+};
 use vrp_pragmatic::format::problem::PragmaticProblem;
 use vrp_pragmatic::format::solution::{write_pragmatic, PragmaticOutputType};
 
@@ -119,6 +131,9 @@ struct Log {
     adds: Vec<usize>,
     pop_on_generation: Vec<usize>,
     selects: Vec<usize>,
+    creates: Vec<usize>,
+    n_ops: usize,
+    fits: Vec<f64>,
     events: String,
     watchdog: bool,
 }
@@ -138,6 +153,7 @@ where
     log: SharedLog,
     quota: Arc<CountingQuota>,
     max_calls: usize,
+    iter_sleep_ms: u64,
 }
 
 impl<C, O, S> Display for ScriptedHeuristic<C, O, S>
@@ -177,6 +193,9 @@ where
             }
             g
         };
+        if self.iter_sleep_ms > 0 {
+            std::thread::sleep(std::time::Duration::from_millis(self.iter_sleep_ms));
+        }
         let m = self.script.at(g);
         let parents = solutions.len();
         let stat = heuristic_ctx.statistics().generation;
@@ -238,7 +257,12 @@ where
 {
     inner: Box<dyn HeuristicPopulation<Objective = O, Individual = S> + Send + Sync>,
     script: Script,
+    phase: Script,
     log: SharedLog,
+}
+
+fn first_fitness<S: HeuristicSolution>(s: &S) -> f64 {
+    s.fitness().next().unwrap_or(f64::NAN)
 }
 
 impl<O, S> HeuristicPopulation for ScriptedPopulation<O, S>
@@ -253,6 +277,7 @@ where
         {
             let mut log = self.log.lock().unwrap();
             log.adds.push(individuals.len());
+            log.fits.extend(individuals.iter().map(first_fitness));
             log.events.push('A');
         }
         self.inner.add_all(individuals)
@@ -262,6 +287,7 @@ where
         {
             let mut log = self.log.lock().unwrap();
             log.adds.push(1);
+            log.fits.push(first_fitness(&individual));
             log.events.push('a');
         }
         self.inner.add(individual)
@@ -310,8 +336,66 @@ where
     }
 
     fn selection_phase(&self) -> SelectionPhase {
-        self.inner.selection_phase()
+        // Iterative::run asks once per iteration, AFTER selected(): the iteration index = select() calls made so far - 1
+        let g = self.log.lock().unwrap().selects.len().saturating_sub(1);
+        match self.phase.at(g) {
+            1 => SelectionPhase::Exploration,
+            2 => SelectionPhase::Initial,
+            _ => self.inner.selection_phase(),
+        }
     }
+}
+
+// ------------------------------------------------------------------------------------------------ scripted initial operator
+struct ScriptedInitial<C, O, S>
+where
+    C: HeuristicContext<Objective = O, Solution = S>,
+    O: HeuristicObjective<Solution = S>,
+    S: HeuristicSolution,
+{
+    inner: Box<dyn InitialOperator<Context = C, Objective = O, Solution = S> + Send + Sync>,
+    idx: usize,
+    log: SharedLog,
+}
+
+impl<C, O, S> InitialOperator for ScriptedInitial<C, O, S>
+where
+    C: HeuristicContext<Objective = O, Solution = S>,
+    O: HeuristicObjective<Solution = S>,
+    S: HeuristicSolution,
+{
+    type Context = C;
+    type Objective = O;
+    type Solution = S;
+
+    fn create(&self, heuristic_ctx: &Self::Context) -> Self::Solution {
+        {
+            let mut log = self.log.lock().unwrap();
+            log.creates.push(self.idx);
+            log.events.push('c');
+        }
+        self.inner.create(heuristic_ctx)
+    }
+}
+
+fn wrap_initial<C, O, S>(operators: InitialOperators<C, O, S>, st: &Setup) -> InitialOperators<C, O, S>
+where
+    C: HeuristicContext<Objective = O, Solution = S> + 'static,
+    O: HeuristicObjective<Solution = S> + 'static,
+    S: HeuristicSolution + 'static,
+{
+    let keep = st.init_ops.unwrap_or(usize::MAX);
+    st.log.lock().unwrap().n_ops = operators.len().min(keep);
+    operators
+        .into_iter()
+        .take(keep)
+        .enumerate()
+        .map(|(idx, (inner, _))| {
+            let op: Box<dyn InitialOperator<Context = C, Objective = O, Solution = S> + Send + Sync> =
+                Box::new(ScriptedInitial { inner, idx, log: st.log.clone() });
+            (op, st.weights.get(idx).copied().unwrap_or(1))
+        })
+        .collect()
 }
 
 // ------------------------------------------------------------------------------------------------ scripted termination
@@ -323,6 +407,8 @@ where
     inner: Box<dyn Termination<Context = C, Objective = O>>,
     user_limit: Option<usize>,
     log: SharedLog,
+    quota: Arc<CountingQuota>,
+    max_evaluations: usize,
 }
 
 impl<C, O> Termination for ScriptedTermination<C, O>
@@ -340,15 +426,21 @@ where
         let mut log = self.log.lock().unwrap();
         log.term.push(json!([stat, answer]));
         log.events.push(if answer { 'T' } else { 't' });
+        if log.term.len() > self.max_evaluations {
+            // watchdog: the loop keeps evaluating the termination without ever getting there (Iterative::run polls the quota next)
+            log.watchdog = true;
+            self.quota.force.store(true, Ordering::SeqCst);
+        }
         answer
     }
 
     fn estimate(&self, heuristic_ctx: &Self::Context) -> Float {
+        self.log.lock().unwrap().events.push('e');
         self.inner.estimate(heuristic_ctx)
     }
 }
 
-fn wrap_termination<C, O, S>(config: EvolutionConfig<C, O, S>, user_limit: Option<usize>, log: SharedLog) -> EvolutionConfig<C, O, S>
+fn wrap_termination<C, O, S>(config: EvolutionConfig<C, O, S>, st: &Setup) -> EvolutionConfig<C, O, S>
 where
     C: HeuristicContext<Objective = O, Solution = S> + 'static,
     O: HeuristicObjective<Solution = S> + 'static,
@@ -360,7 +452,13 @@ where
         processing,
         context,
         strategy,
-        termination: Box::new(ScriptedTermination { inner: termination, user_limit, log }),
+        termination: Box::new(ScriptedTermination {
+            inner: termination,
+            user_limit: st.user_limit,
+            log: st.log.clone(),
+            quota: st.quota.clone(),
+            max_evaluations: st.max_calls + st.init_size + 8,
+        }),
     }
 }
 
@@ -374,7 +472,14 @@ struct Setup {
     pop_kind: String,
     selection_size: usize,
     select: Script,
+    phase: Script,
     init_size: usize,
+    init_ops: Option<usize>,
+    weights: Vec<usize>,
+    track: usize,
+    max_time: Option<usize>,
+    delay_ms: u64,
+    iter_sleep_ms: u64,
     max_calls: usize,
     quota: Arc<CountingQuota>,
     environment: Arc<Environment>,
@@ -414,7 +519,14 @@ fn setup(cfg: &Value) -> Setup {
         pop_kind: cfg["population"]["kind"].as_str().unwrap_or("greedy").to_string(),
         selection_size: cfg["population"]["selection_size"].as_u64().unwrap_or(1).max(1) as usize,
         select: Script::read(&cfg["population"], -1),
+        phase: Script::read(&cfg["population"]["phase"], 0),
         init_size: cfg["init_size"].as_u64().unwrap_or(4) as usize,
+        init_ops: cfg["init_ops"].as_u64().map(|x| x as usize),
+        weights: cfg["weights"].as_array().map(|a| a.iter().map(|x| x.as_u64().unwrap_or(1) as usize).collect()).unwrap_or_default(),
+        track: cfg["track_population"].as_u64().unwrap_or(1) as usize,
+        max_time: cfg["max_time"].as_u64().map(|x| x as usize),
+        delay_ms: cfg["delay_ms"].as_u64().unwrap_or(0),
+        iter_sleep_ms: cfg["iter_sleep_ms"].as_u64().unwrap_or(0),
         max_calls: cfg["max_calls"].as_u64().map(|x| x as usize).unwrap_or(4 * (limit + 2) + 8),
         quota,
         environment,
@@ -432,6 +544,9 @@ fn report(st: &Setup, metrics: Option<&TelemetryMetrics>, mut res: Value) -> Val
     obj.insert("adds".into(), json!(log.adds));
     obj.insert("pop_on_generation".into(), json!(log.pop_on_generation));
     obj.insert("selects".into(), json!(log.selects));
+    obj.insert("creates".into(), json!(log.creates));
+    obj.insert("n_ops".into(), json!(log.n_ops));
+    obj.insert("fits".into(), json!(log.fits.iter().map(|f| if f.is_finite() { json!(f) } else { Value::Null }).collect::<Vec<_>>()));
     obj.insert("events".into(), json!(log.events));
     obj.insert("watchdog".into(), json!(log.watchdog));
     obj.insert("generations".into(), json!(metrics.map(|t| t.generations)));
@@ -465,14 +580,17 @@ fn run_vrp(case: &Value) -> Value {
         log: st.log.clone(),
         quota: st.quota.clone(),
         max_calls: st.max_calls,
+        iter_sleep_ms: st.iter_sleep_ms,
     };
     let inner_population: Box<dyn HeuristicPopulation<Objective = GoalContext, Individual = InsertionContext> + Send + Sync> =
         match st.pop_kind.as_str() {
             "elitism" => Box::new(Elitism::new(problem.goal.clone(), env.random.clone(), 4, st.selection_size)),
             _ => Box::new(Greedy::new(problem.goal.clone(), st.selection_size, None)),
         };
-    let population = ScriptedPopulation { inner: inner_population, script: st.select.clone(), log: st.log.clone() };
-    let telemetry = TelemetryMode::OnlyMetrics { track_population: 1 };
+    let population =
+        ScriptedPopulation { inner: inner_population, script: st.select.clone(), phase: st.phase.clone(), log: st.log.clone() };
+    let telemetry = TelemetryMode::OnlyMetrics { track_population: st.track };
+    let initial = wrap_initial(create_default_init_operators(problem.clone(), env.clone()), &st);
     let config = VrpConfigBuilder::new(problem.clone())
         .set_environment(env.clone())
         .set_telemetry_mode(telemetry.clone())
@@ -480,13 +598,18 @@ fn run_vrp(case: &Value) -> Value {
         .prebuild()
         .and_then(|b| {
             b.with_context(RefinementContext::new(problem.clone(), Box::new(population), telemetry, env.clone()))
+                .with_initial(st.init_size, 0.05, initial)
                 .with_max_generations(st.max_generations)
+                .with_max_time(st.max_time)
                 .build()
         });
     let config = match config {
-        Ok(c) => wrap_termination(c, st.user_limit, st.log.clone()),
+        Ok(c) => wrap_termination(c, &st),
         Err(e) => return json!({"outcome": "error", "error": format!("config: {}", e)}),
     };
+    if st.delay_ms > 0 {
+        std::thread::sleep(std::time::Duration::from_millis(st.delay_ms));
+    }
     let solution = match Solver::new(problem.clone(), config).solve() {
         Ok(s) => s,
         Err(e) => return report(&st, None, json!({"outcome": "error", "error": format!("solve: {}", e)})),
@@ -563,15 +686,32 @@ fn run_scalar(case: &Value) -> Value {
         log: st.log.clone(),
         quota: st.quota.clone(),
         max_calls: st.max_calls,
+        iter_sleep_ms: st.iter_sleep_ms,
     };
     let inner_population: Box<dyn HeuristicPopulation<Objective = VectorObjective, Individual = VectorSolution> + Send + Sync> =
         match st.pop_kind.as_str() {
             "elitism" => Box::new(Elitism::new(objective.clone(), env.random.clone(), 4, st.selection_size)),
             _ => Box::new(Greedy::new(objective.clone(), st.selection_size, None)),
         };
-    let population = ScriptedPopulation { inner: inner_population, script: st.select.clone(), log: st.log.clone() };
-    let context =
-        VectorContext::new(objective.clone(), Box::new(population), TelemetryMode::OnlyMetrics { track_population: 1 }, env.clone());
+    let population =
+        ScriptedPopulation { inner: inner_population, script: st.select.clone(), phase: st.phase.clone(), log: st.log.clone() };
+    let context = VectorContext::new(
+        objective.clone(),
+        Box::new(population),
+        TelemetryMode::OnlyMetrics { track_population: st.track },
+        env.clone(),
+    );
+    let individuals: Vec<VectorSolution> = case["scalar"]["individuals"]
+        .as_array()
+        .map(|a| {
+            a.iter()
+                .map(|p| {
+                    let data: Vec<Float> = p.as_array().map(|c| c.iter().map(|x| x.as_f64().unwrap_or(0.)).collect()).unwrap_or_default();
+                    VectorSolution::new_with_objective(data, objective.as_ref())
+                })
+                .collect()
+        })
+        .unwrap_or_default();
     let operators = points
         .into_iter()
         .map(|p| {
@@ -583,17 +723,25 @@ fn run_scalar(case: &Value) -> Value {
             (op, 1usize)
         })
         .collect::<Vec<_>>();
-    let config = EvolutionConfigBuilder::<VectorContext, VectorObjective, VectorSolution, i32>::default()
+    let operators = wrap_initial(operators, &st);
+    let mut builder = EvolutionConfigBuilder::<VectorContext, VectorObjective, VectorSolution, i32>::default()
         .with_heuristic(Box::new(heuristic))
         .with_objective(objective)
         .with_context(context)
         .with_max_generations(st.max_generations)
-        .with_initial(st.init_size, 0.05, operators)
-        .build();
+        .with_max_time(st.max_time)
+        .with_initial(st.init_size, 0.05, operators);
+    if !individuals.is_empty() {
+        builder = builder.with_init_solutions(individuals, None);
+    }
+    let config = builder.build();
     let config = match config {
-        Ok(c) => wrap_termination(c, st.user_limit, st.log.clone()),
+        Ok(c) => wrap_termination(c, &st),
         Err(e) => return json!({"outcome": "error", "error": format!("config: {}", e)}),
     };
+    if st.delay_ms > 0 {
+        std::thread::sleep(std::time::Duration::from_millis(st.delay_ms));
+    }
     let simulator = match EvolutionSimulator::new(config) {
         Ok(s) => s,
         Err(e) => return report(&st, None, json!({"outcome": "error", "error": format!("new: {}", e)})),
